@@ -18,7 +18,7 @@ From UV.Base Require Import Cop Res.
 From UV.Gen Require Import Tables.
 From UV.Py Require Import PyStr.
 From UV.Vers Require Import Model VersText.
-From UV.Native Require Import Advisory AdvisoryProofs SnykProofs.
+From UV.Native Require Import Advisory AdvisoryProofs SnykProofs GitlabProofs.
 From UV.Schemes Require Import Common Generic.
 Import ListNotations.
 Local Open Scope list_scope.
@@ -70,9 +70,28 @@ Example C15_snyk_item_inhabited :
     Ok [C GE (list_ascii_of_string "1.0"); C LT (list_ascii_of_string "2.0"); C NE (list_ascii_of_string "1.5")].
 Proof. vm_compute. reflexivity. Qed.
 
+(* GitLab (the schemes converted by from_gitlab_native's own loop): clauses "<spelling><version>", or a bare version
+   (read as "="), separated by the scheme's separator and without "||", convert to exactly the constraints they state *)
+Theorem C15_gitlab_expression :
+  forall (V : Type) (cmp : V -> V -> comparison) (vctor : str -> res V) (T : ctable) (sep : ascii),
+    table_ok T = true ->
+    forall (pieces : list str) (cs : list (constr V)), pieces <> [] ->
+      Forall (fun w => mem_c sep w = false /\ mem_c "|"%char w = false) pieces -> eqc "|"%char sep = false ->
+      Forall2 (gl_clause V vctor T) pieces cs ->
+      gitlab_range V cmp vctor T sep (join_c sep pieces) = sort_c V cmp cs.
+Proof. exact gitlab_range_rendered. Qed.
+
+Example C15_gitlab_inhabited :
+  gitlab_range str UV.Schemes.Common.cmp_str gen_ctor native_table_NpmVersionRange " "%char (list_ascii_of_string ">=1.0 <2.0") =
+    Ok [C GE (list_ascii_of_string "1.0"); C LT (list_ascii_of_string "2.0")] /\
+  table_ok native_table_NpmVersionRange = true.
+Proof. split; vm_compute; reflexivity. Qed.
+
 Print Assumptions C15_comparator_tables_read_every_spelling_as_itself.
 Print Assumptions C15_splitter_returns_the_stated_comparator_and_version.
 Print Assumptions C15_github_clause.
 Print Assumptions C15_github_expression.
 Print Assumptions C15_snyk_item.
 Print Assumptions C15_snyk_item_inhabited.
+Print Assumptions C15_gitlab_expression.
+Print Assumptions C15_gitlab_inhabited.
